@@ -2,7 +2,7 @@
 Lean: StirVerif/C11 (model, per-operation refinement theorems, history safety theorem).
 Tie: hand-written model + correspondence: the real Array<1,int>/VectorWithOffset<int> (ASan+UBSan)
 and the Lean driver execute the same histories; observable state compared after every step.
-Oracle: N-dim arrays / views against reference maps inside the harness (ASan)."""
+Oracle: N-dim arrays (2-4 dimensions) / views / constructors / moves against nested reference maps inside the harness (ASan)."""
 import glob, itertools, os, random
 import vlib
 
@@ -11,18 +11,44 @@ PROP = "C11"
 ALPHABET = ["resize 0 0 4", "resize 0 2 3", "resize 0 -2 6", "resize 0 5 9", "resize 0 3 2",
             "grow 0 -1 5", "reserve 0 -3 12", "setoff 0 -2", "setoff 0 3", "assign 0 1", "assign 1 0",
             "fill 0 7", "set 0 2 5", "get 0 3", "add 0 1", "badd 0 1", "recycle 0", "eq 0 1",
-            "resize 1 0 9", "resize 1 0 4", "fill 1 3"]
+            "resize 1 0 9", "resize 1 0 4", "fill 1 3",
+            # arithmetic other than += (every operator family once, on ranges that may or may not agree)
+            "sub 0 1", "mul 0 1", "div 0 1", "bsub 0 1", "bmul 1 0", "bdiv 0 1",
+            "sadd 0 2", "smul 0 -3", "sdiv 0 2", "ssub 1 1",
+            "minus 0 0 1", "times 1 0 1", "over 0 1 0", "plus 0 1 1", "overs 0 1 2", "minuss 1 0 4",
+            "xapyb 0 0 2 1 -1", "xapybv 0 1 1 0 0", "sapyb 0 3 1 2", "sapybv 0 1 1 0"]
+
+# sub-alphabet for the longer bounded-exhaustive run (thorough tier): the storage operations and one
+# operation of every arithmetic family
+CORE = ["resize 0 0 4", "resize 0 2 3", "resize 0 -2 6", "resize 0 3 2", "reserve 0 -3 12", "setoff 0 3",
+        "assign 0 1", "assign 1 0", "fill 0 7", "set 0 2 5", "recycle 0", "resize 1 0 9", "resize 1 0 4", "fill 1 3",
+        "add 0 1", "sub 0 1", "mul 1 0", "div 0 1", "bsub 0 1", "sdiv 0 2", "minus 0 0 1", "over 1 0 1",
+        "xapyb 0 0 2 1 -1", "sapybv 0 1 1 0"]
+
+ARITH2 = ["sub", "mul", "div"]
+BARITH2 = ["bsub", "bmul", "bdiv"]
+SCALAR = ["sadd", "ssub", "smul", "sdiv"]
+BIN = ["plus", "minus", "times", "over"]
+BINS = ["pluss", "minuss", "timess", "overs"]
 
 
 def gen_random(rng, histories, length):
     lines = []
     for _ in range(histories):
         lines.append("reset")
+        # a third of the histories work on few distinct ranges, so that operands with EQUAL ranges
+        # (base-class arithmetic, xapyb) are frequent; the others use arbitrary ranges
+        few = rng.randrange(3) == 0
+        pool = [(lo, lo + rng.randint(0, 5)) for lo in (rng.randint(-4, 4), rng.randint(-4, 4))]
         for _ in range(length):
-            k = rng.randrange(100)
-            r, s = rng.randrange(3), rng.randrange(3)
-            a = rng.randint(-6, 10)
-            b = a + rng.randint(-2, 8)
+            k = rng.randrange(140)
+            r, s, t = rng.randrange(3), rng.randrange(3), rng.randrange(3)
+            if few:
+                a, b = rng.choice(pool)
+            else:
+                a = rng.randint(-6, 10)
+                b = a + rng.randint(-2, 8)
+            c = rng.choice([-3, -2, -1, 0, 1, 2, 3, 7, 200, 30000, 30001])
             if k < 22:
                 lines.append("resize %d %d %d" % (r, a, b))
             elif k < 30:
@@ -47,8 +73,28 @@ def gen_random(rng, histories, length):
                     lines.append("badd %d %d" % (r, s))
             elif k < 96:
                 lines.append("recycle %d" % r)
-            else:
+            elif k < 100:
                 lines.append("eq %d %d" % (r, s))
+            elif k < 108:
+                if r != s:
+                    lines.append("%s %d %d" % (rng.choice(ARITH2), r, s))
+            elif k < 113:
+                if r != s:
+                    lines.append("%s %d %d" % (rng.choice(BARITH2), r, s))
+            elif k < 119:
+                lines.append("%s %d %d" % (rng.choice(SCALAR), r, c))
+            elif k < 125:
+                lines.append("%s %d %d %d" % (rng.choice(BIN), r, s, t))
+            elif k < 129:
+                lines.append("%s %d %d %d" % (rng.choice(BINS), r, s, c))
+            elif k < 133:
+                lines.append("xapyb %d %d %d %d %d" % (r, s, c, t, rng.randint(-3, 3)))
+            elif k < 135:
+                lines.append("xapybv %d %d %d %d %d" % (r, s, rng.randrange(3), t, rng.randrange(3)))
+            elif k < 138:
+                lines.append("sapyb %d %d %d %d" % (r, c, s, rng.randint(-3, 3)))
+            else:
+                lines.append("sapybv %d %d %d %d" % (r, s, t, rng.randrange(3)))
     return lines
 
 
@@ -163,12 +209,19 @@ def main(tier, replay):
     for f in corpus_files:
         lines += [l.strip() for l in open(f) if l.strip() and not l.startswith("#")]
     n_corpus = len(split_histories(lines))
-    L = 3 if tier == "quick" else 4
+    L = 3
     for seq in itertools.product(ALPHABET, repeat=L):
         lines.append("reset")
         lines += seq
     n_exh = len(ALPHABET) ** L
-    nrand, lrand = (400, 40) if tier == "quick" else (4000, 120)
+    exh2_text = ""
+    if tier != "quick":
+        # longer bounded-exhaustive run over the core sub-alphabet
+        for seq in itertools.product(CORE, repeat=4):
+            lines.append("reset")
+            lines += seq
+        exh2_text = " + ALL sequences of length 4 over a %d-op core sub-alphabet (%d)" % (len(CORE), len(CORE) ** 4)
+    nrand, lrand = (600, 40) if tier == "quick" else (6000, 120)
     lines += gen_random(rng, nrand, lrand)
 
     histories = split_histories(lines)
@@ -227,38 +280,70 @@ def main(tier, replay):
         chk.violation(key, desc + " — history: " + "; ".join(small), text)
     n_div = len(divergent)
 
-    # ---- N-dimensional oracle (reference maps, row-major iteration, views), under ASan
+    # ---- N-dimensional oracle (reference index-range maps, row-major iteration, views, constructors), under ASan
     ndout = os.path.join(vlib.OUT, "c11_nd.out")
-    nh, nl = (300, 25) if tier == "quick" else (3000, 60)
+    nh, nl = (400, 25) if tier == "quick" else (6000, 50)
     env = dict(os.environ, ASAN_OPTIONS="detect_leaks=0:exitcode=66", UBSAN_OPTIONS="exitcode=66")
+    if os.path.exists(ndout):
+        os.remove(ndout)
     r = vlib.sh([exe, "nd", str(vlib.seed()), str(nh), str(nl), ndout], env=env)
     nd_lines = open(ndout).read().splitlines() if os.path.exists(ndout) else []
-    nd_steps = 0
+    nd_steps, nd_checks, nd_ops, nd_done = 0, 0, {}, False
     for l in nd_lines:
         if l.startswith("ND-DONE"):
             nd_steps = int(l.split()[1].split("=")[1])
+            nd_done = True
+        elif l.startswith("ORACLE-DONE"):
+            nd_checks = int(l.split()[1].split("=")[1])
+        elif l.startswith("ND-OPS"):
+            nd_ops = {kv.rsplit("=", 1)[0]: int(kv.rsplit("=", 1)[1]) for kv in l.split()[1:]}
     fails = [l for l in nd_lines if l.startswith("ORACLE-FAIL")]
     for l in fails[:3]:
-        chk.violation("nd:" + l[:120], "N-dimensional array disagrees with its reference map: " + l[:200], l)
-    if r.returncode != 0 and not fails:
-        chk.violation("nd:abort", "N-dimensional array oracle aborted (sanitizer)", r.stdout[-3000:])
+        chk.violation("nd:" + l[:120], "N-dimensional array disagrees with its reference map: " + l[:300], l)
+    seen = set()
+    for l in nd_lines:
+        if l.startswith("KNOWN-CANDIDATE"):
+            parts = l.split(" ", 2)
+            if parts[1] not in seen:
+                seen.add(parts[1])
+                chk.violation(parts[1], (parts[2] if len(parts) > 2 else parts[1])[:400], "# seed=%d tier=%s\n%s\n" % (vlib.seed(), tier, l))
+    if (r.returncode != 0 or not nd_done) and not fails:
+        chk.violation("nd:abort", "N-dimensional array oracle aborted (sanitizer report or crash): " + r.stdout[-400:].replace("\n", " | "),
+                      r.stdout[-3000:])
 
+    for l in nd_ops:
+        op_hist["nd:" + l] = nd_ops[l]
     chk.coverage.update(dict(
-        evaluations=len(flat) + nd_steps,
+        evaluations=len(flat) + nd_checks,
         distinct_nontrivial=len(nontrivial),
-        rule="histories = corpus (%d) + ALL sequences of length %d over a %d-op alphabet (%d) + %d seeded random histories of length %d on 3 registers; "
-             "a history is non-trivial if it has >= 2 operations; distinct = distinct operation sequences. After every operation the full observable state "
-             "(index range + contents of all registers, result/err) of the real classes is compared with the Lean model; ASan/UBSan abort = out-of-bounds. "
-             "Plus N-dim oracle: %d random histories on Array<2,int>/Array<3,int>/views vs reference maps (%d steps)." % (
-                 n_corpus, L, len(ALPHABET), n_exh, nrand, lrand, nh, nd_steps),
+        rule="(1) 1-D correspondence: histories = corpus (%d) + ALL sequences of length %d over a %d-op alphabet (%d)%s + %d seeded random histories of "
+             "length %d on 3 registers of Array<1,int>; the alphabet has resize/grow/reserve/set_offset/assign/fill/at/recycle/==, the growing "
+             "+= -= *= /= of NumericVectorWithOffset, the range-checked base-class += -= *= /=, scalar += -= *= /=, the binary operators x op y and "
+             "x op c with assignment, xapyb and sapyb with scalar and vector factors; a history is non-trivial if it has >= 2 operations; distinct = "
+             "distinct operation sequences. After every operation the full observable state (index range + contents of all registers, result/err/skip) "
+             "of the real classes is compared with the Lean model; ASan/UBSan abort = out-of-bounds. An arithmetic operation is executed only if all "
+             "operand elements and scalars are <= 30000 in magnitude and no divisor is zero (else both sides answer skip). "
+             "(2) N-dim oracle under ASan: %d/%d/%d random histories of length %d on Array<2,int>/Array<3,int>/Array<4,int> (default-constructed, "
+             "block-owning Array(range), copy/move-constructed and -assigned, swapped, resized, shrunk and regrown, single rows resized, filled, "
+             "numeric op= and binary operators on different ranges, scalar operators, xapyb/sapyb, get_index_range/is_regular/get_regular_range, "
+             "get_min_indices/next/get) compared after every step with a nested reference index-range map (index range of every level, every element, "
+             "size_all, full iteration order, operator==); %d/%d/%d histories on 2-/3-/4-D arrays viewing a shared block (writes both ways, shrink inside, "
+             "grow, fill, copy: exact aliasing while only shrunk, no aliasing of a foreign cell ever, block untouched after a resize beyond it in the "
+             "innermost dimension); %d cases of the six 1-D viewing/copying constructors; irregular 2-D arrays (is_contiguous, copy_to, fill_from, "
+             "get_full_data_ptr); %d oracle comparisons in %d steps." % (
+                 n_corpus, L, len(ALPHABET), n_exh, exh2_text, nrand, lrand, nh, nh // 2 + 1, nh // 4 + 1, nl, nh, nh // 2 + 1, nh // 4 + 1, nh, nd_checks, nd_steps),
         samples=[histories[0], histories[n_corpus + 12345 % n_exh], histories[-1][:12]],
         exhaustive=False,
         operation_histogram=op_hist,
         histories=len(histories), divergent_histories=n_div, sanitizer_aborts=len(aborts),
         traces_validated_against_impl=len(histories) - n_div))
     chk.assumptions += ["element type int; the allocator, shared_ptr lifetime and iterator invalidation are runtime behaviour seen only by ASan, not by the model",
-                        "N-dimensional arrays and memory views are checked by the harness oracle (reference map), not by a Lean theorem (Props.lean has only the row-major flattening lemma)",
-                        "32-bit int overflow not modelled (values kept small)"]
+                        "N-dimensional arrays (2-4 dimensions), memory views, constructors, moves and array_index_functions are checked by the harness oracle "
+                        "(nested reference map), not by a Lean theorem (Props.lean has only the row-major flattening lemma for them); the Lean model and the "
+                        "theorems cover the 1-D classes VectorWithOffset<int> / NumericVectorWithOffset / Array<1,int>",
+                        "32-bit int overflow and integer division by zero are undefined behaviour in C++ and outside the property: arithmetic operations whose "
+                        "operands exceed 30000 in magnitude or whose divisor has a zero are skipped (by harness and model alike, counted as `skip`)",
+                        "aliased compound assignment of a register with itself (x += x etc.) is not generated; index ranges with max < min-1 are not generated"]
     if audit:
         vlib.proof_coverage(chk, audit, "cd lean && lake build StirVerif stirdriver && lake env lean ../build/out/Audit_C11.lean")
     return chk.finish()
